@@ -124,7 +124,7 @@ class Future:
 
     def result(self, timeout=None):
         # before handing out any result the scheduler may already have run other pending jobs
-        self.ex.run_scheduled()
+        self.ex.run_scheduled("result")
         self.force()
         if self.exc is not None:
             raise self.exc
@@ -161,15 +161,16 @@ class DeferredExecutor:
             def submit(self, fn, *args, **kw):
                 f = Future(self, fn, args)
                 self.pending.append(f)
+                self.run_scheduled("submit")      # a worker may already run jobs while the main thread goes on
                 return f
 
-            def run_scheduled(self):
-                """force pending jobs in the order chosen by `schedule` (a callable taking the list of
-                not-yet-run futures and returning those to run now, in order)"""
+            def run_scheduled(self, at):
+                """force pending jobs as chosen by `schedule(todo, at)`: a callable taking the not-yet-run
+                futures and the scheduling point ('submit' / 'result'), returning those to run now, in order"""
                 if schedule is None:
                     return
                 todo = [f for f in self.pending if not f.done]
-                for f in schedule(todo):
+                for f in schedule(todo, at):
                     f.force()
 
         return _Ex
